@@ -218,6 +218,23 @@ def lift_python():
         if isinstance(n, (ast.If, ast.IfExp)):
             conds.append((n.lineno, n.col_offset, ast.unparse(n.test)))
     res["conditions"] = [c for _, _, c in sorted(conds)]
+    # the DT branch of Terminal.real() and the DT factory of utils.py
+    rl = _find_func(term, "Terminal", "real")
+    real_dt = None
+    for n in ast.walk(rl):
+        if isinstance(n, ast.If) and ast.unparse(n.test) == "self.isA('DT')":
+            real_dt = [ast.unparse(x) for x in n.body]
+    if real_dt is None:
+        _err("branch `self.isA('DT')` of Terminal.real not found")
+    res["realDT"] = real_dt
+    try:
+        ut = ast.parse(open(os.path.join(src, "utils.py"), encoding="utf-8").read())
+    except (OSError, SyntaxError) as e:
+        _err("cannot parse utils.py: %s" % e)
+    fac = [n for n in ut.body if isinstance(n, ast.FunctionDef) and n.name == "DT"]
+    if len(fac) != 1:
+        _err("factory DT not found in utils.py")
+    res["factoryDT"] = ["def DT(%s)" % ast.unparse(fac[0].args)] + [ast.unparse(x) for x in fac[0].body]
     # DT defaults in Terminal.setLemma
     sl = _find_func(term, "Terminal", "setLemma")
     dflt = None
@@ -290,6 +307,10 @@ def generate():
                "def pyStatements : List Str :=\n  [%s]\n" % ",\n   ".join(lstr(x) for x in py["statements"]))
     out.append("/-- source text of the tests of every if / elif / conditional expression of Terminal.dateFormat, in source order -/\n"
                "def pyConditions : List Str :=\n  [%s]\n" % ",\n   ".join(lstr(x) for x in py["conditions"]))
+    out.append("/-- statements of the `self.isA('DT')` branch of Terminal.real -/\n"
+               "def pyRealDT : List Str := [%s]\n" % ", ".join(lstr(x) for x in py["realDT"]))
+    out.append("/-- signature and body of the factory `DT` of utils.py -/\n"
+               "def pyFactoryDT : List Str := [%s]\n" % ", ".join(lstr(x) for x in py["factoryDT"]))
     out.append("def pyAllowedKeys : List Str := %s\n" % llist(py["allowedKeys"]))
     out.append("/-- defaults set by Terminal.setLemma for a DT -/\ndef pyDefaults : List (Str × Bool) :=\n  [%s]\n"
                % ", ".join("(%s, %s)" % (lstr(k), "true" if v else "false") for k, v in py["defaults"]))
